@@ -26,6 +26,8 @@ void _ZNSt7__cxx1112basic_stringIcSt11char_traitsIcESaIcEED1Ev(u8* s) { (void)s;
 u8* _ZNKSt7__cxx1112basic_stringIcSt11char_traitsIcESaIcEE5c_strEv(u8* s) { return GS(s)->p; }
 u8* _ZNKSt7__cxx1112basic_stringIcSt11char_traitsIcESaIcEE4dataEv(u8* s) { return GS(s)->p; }
 u64 _ZNKSt7__cxx1112basic_stringIcSt11char_traitsIcESaIcEE4sizeEv(u8* s) { return GS(s)->len; }
+u8* _ZNKSt7__cxx1112basic_stringIcSt11char_traitsIcESaIcEEixEm(u8* s, u64 i) { __CPROVER_assert(i <= GS(s)->len, "std::string::operator[] within [0, size()]"); return GS(s)->p + i; }
+u8* _ZNSt7__cxx1112basic_stringIcSt11char_traitsIcESaIcEEixEm(u8* s, u64 i) { __CPROVER_assert(i <= GS(s)->len, "std::string::operator[] within [0, size()]"); return GS(s)->p + i; }
 u64 _ZNKSt7__cxx1112basic_stringIcSt11char_traitsIcESaIcEE6lengthEv(u8* s) { return GS(s)->len; }
 u8 _ZNKSt7__cxx1112basic_stringIcSt11char_traitsIcESaIcEE5emptyEv(u8* s) { return GS(s)->len == 0; }
 /* searching and slicing (ghost strings alias their source, so a substring is a sub-range) */
